@@ -78,20 +78,23 @@ Definition is_line_boundary (c : list Z) (s : Z) : Prop :=
    The lookups read at most A chunks of H bytes in each direction and give
    up (MaxSearchableLineLengthReached) beyond that.  Exactly:
    forwards from [o]  : a line feed at p is found iff p - o < A*H; the end
-                        of the file is recognised iff |c| - o <= (A-1)*H
-                        (one attempt is spent on the empty read);
+                        of the file is recognised iff |c| - o < A*H
+                        (a short or empty read ends the scan);
    backwards from [o] : a line feed at q is found iff o - q <= A*H; the
-                        start of the file is recognised iff o <= (A-1)*H
-                        (the last attempt never reports start-of-file). *)
+                        start of the file is recognised iff o < A*H
+                        (a clipped window, or a window that starts at 0
+                        with an attempt left, ends the scan).
+   Hence every line of at most A*H - 1 bytes is within the budget wherever it
+   lies, and so is a line of A*H bytes including its terminating line feed. *)
 Definition fwd_in_budget (H A : Z) (c : list Z) (o : Z) : bool :=
   match next_lf c o with
   | Some p => p - o <? A * H
-  | None => lenZ c - o <=? (A - 1) * H
+  | None => lenZ c - o <? A * H
   end.
 Definition bwd_in_budget (H A : Z) (c : list Z) (o : Z) : bool :=
   match prev_lf c o with
   | Some q => o - q <=? A * H
-  | None => o <=? (A - 1) * H
+  | None => o <? A * H
   end.
 Definition within_budget (H A : Z) (c : list Z) (o : Z) : bool :=
   fwd_in_budget H A c o && bwd_in_budget H A c o.
